@@ -357,7 +357,7 @@ func (p7 *PKCS7) Decrypt(cert *Certificate, pk crypto.PrivateKey) ([]byte, error
 	if recipient.EncryptedKey == nil {
 		return nil, errors.New("pkcs7: no enveloped recipient for provided certificate")
 	}
-	if priv := pk.(*rsa.PrivateKey); priv != nil {
+	if priv, ok := pk.(*rsa.PrivateKey); ok && priv != nil {
 		var contentKey []byte
 		contentKey, err := rsa.DecryptPKCS1v15(rand.Reader, priv, recipient.EncryptedKey)
 		if err != nil {
@@ -365,7 +365,7 @@ func (p7 *PKCS7) Decrypt(cert *Certificate, pk crypto.PrivateKey) ([]byte, error
 		}
 		return data.EncryptedContentInfo.decrypt(contentKey)
 	}
-	fmt.Printf("Unsupported Private Key: %v\n", pk)
+	fmt.Printf("Unsupported Private Key: %T\n", pk)
 	// TODO: SM decript
 	return nil, ErrPKCS7UnsupportedAlgorithm
 }
@@ -380,7 +380,7 @@ func (p7 *PKCS7) DecryptSM2(cert *Certificate, pk crypto.PrivateKey, mode int) (
 		return nil, errors.New("pkcs7: no enveloped recipient for provided certificate")
 	}
 
-	if priv := pk.(*sm2.PrivateKey); priv != nil {
+	if priv, ok := pk.(*sm2.PrivateKey); ok && priv != nil {
 		var contentKey []byte
 		contentKey, err := sm2.Decrypt(priv, recipient.EncryptedKey, mode)
 		if err != nil {
@@ -389,7 +389,7 @@ func (p7 *PKCS7) DecryptSM2(cert *Certificate, pk crypto.PrivateKey, mode int) (
 		return data.EncryptedContentInfo.decrypt(contentKey)
 	}
 
-	fmt.Printf("Unsupported Private Key: %v\n", pk)
+	fmt.Printf("Unsupported Private Key: %T\n", pk)
 	// TODO: SM decript
 	return nil, ErrPKCS7UnsupportedAlgorithm
 }
@@ -505,7 +505,7 @@ func selectRecipientForCertificate(recipients []recipientInfo, cert *Certificate
 }
 
 func isCertMatchForIssuerAndSerial(cert *Certificate, ias issuerAndSerial) bool {
-	return cert.SerialNumber.Cmp(ias.SerialNumber) == 0 && bytes.Compare(cert.RawIssuer, ias.IssuerName.FullBytes) == 0
+	return cert != nil && cert.SerialNumber.Cmp(ias.SerialNumber) == 0 && bytes.Compare(cert.RawIssuer, ias.IssuerName.FullBytes) == 0
 }
 
 func pad(data []byte, blocklen int) ([]byte, error) {
@@ -1020,7 +1020,10 @@ func marshalEncryptedContent(content []byte) asn1.RawValue {
 }
 
 func encryptKey(key []byte, recipient *Certificate) ([]byte, error) {
-	if pub := recipient.PublicKey.(*rsa.PublicKey); pub != nil {
+	if recipient == nil {
+		return nil, errors.New("pkcs7: recipient certificate is nil")
+	}
+	if pub, ok := recipient.PublicKey.(*rsa.PublicKey); ok && pub != nil {
 		return rsa.EncryptPKCS1v15(rand.Reader, pub, key)
 	}
 	return nil, ErrPKCS7UnsupportedAlgorithm
@@ -1093,7 +1096,10 @@ func PKCS7EncryptSM2(content []byte, recipients []*Certificate, mode int) ([]byt
 
 
 func encryptKeySM2(key []byte, recipient *Certificate, mode int) ([]byte, error) {
-	if pub := recipient.PublicKey.(*ecdsa.PublicKey); pub != nil {
+	if recipient == nil {
+		return nil, errors.New("pkcs7: recipient certificate is nil")
+	}
+	if pub, ok := recipient.PublicKey.(*ecdsa.PublicKey); ok && pub != nil {
 		pubkey := &sm2.PublicKey{}
 		pubkey.Curve = pub.Curve
 		pubkey.Y = pub.Y
